@@ -1,5 +1,5 @@
-\* pattern A: every file of up to MaxIns instruction lines over a small alphabet, read in one mode.
-\* c04.py runs this configuration for several modes (AsmMode / FixMode are rewritten there).
+\* pattern A: every file of up to MaxLines lines / MaxIns instruction lines over a small alphabet, read in
+\* one mode.  c04.py runs this configuration for several modes (AsmMode / FixMode are rewritten there).
 SPECIFICATION Spec
 CONSTANTS
   AsmMode = 3
@@ -7,11 +7,16 @@ CONSTANTS
   Base = 40000
   MaxIns = 2
   MaxDirs = 2
-  Kinds = {"isub", "bfix"}
-  TokKinds = {"one", "jp", "jr"}
+  MaxLines = 5
+  Kinds = {"bfix"}
+  TokKinds = {"one", "jp"}
   Classes <- McClasses
   FlagSets <- McFlags
-  TargetOffs = {0, 1}
+  TargetOffs = {1}
+  RemOffs = {0, 1}
+  RemLens = {1, 2}
+  LabChoices = {FALSE}
+  Ctls = {"c", " "}
 INVARIANT TypeOK
 INVARIANT LayoutIsFunctionOfFileAndMode
 INVARIANT NoTwoOnOneAddress
@@ -19,7 +24,6 @@ INVARIANT OverwriteRemoves
 INVARIANT LabelTableIsAFunction
 INVARIANT AmapPointsAtItsInstruction
 INVARIANT NoModeIsIdentity
-INVARIANT ModesMonotone
 INVARIANT StationaryKeepsOperands
 INVARIANT ImagesAgreeWithoutOverrides
 CHECK_DEADLOCK FALSE
